@@ -356,6 +356,7 @@ def indexing_kinds(level="1.5", rpc=2, n=5, m=4):
             dict(rows=np.array([True, False] * (n // 2) + [True] * (n % 2)), columns=np.array([False, True] * (m // 2) + [True] * (m % 2))),
             dict(rows=pts, columns=ptc), dict(rows=pts), dict(columns=ptc), dict(rows=-1, columns=slice(1, 2)), dict(rows=slice(2, 2), columns=slice(1, 3)),
             dict(rows=slice(3, 1), columns=0), dict(rows=[1, 1, 1], columns=-1), dict(rows=slice(4, 0, -2)), dict(rows=2, columns=[0]), dict(rows=xr.DataArray([[0, 1], [2, 3]], dims=("a", "b"))),
+            dict(rows=1, columns=2), dict(rows=-1, columns=-1), dict(rows=0, columns=0),  # scalar on both axes: 0-d result
         ]
         bad = []
         for key in keys:
